@@ -54,7 +54,9 @@ Definition step (s : st) (e : ev) : option st :=
               cop := cop s; acked := acked s |}
   | EQSet b ok =>
       if mem b (pend s) then
-        Some {| src := src s; dest := dest s; queue := if ok then add b (queue s) else queue s; need := need s;
+        (* the hook may add the blob to needCopy before or after its queue.Set (after: even when the write fails): the
+           model adds it at both points, the earlier at ESrcRecv *)
+        Some {| src := src s; dest := dest s; queue := if ok then add b (queue s) else queue s; need := add b (need s);
                 pend := del1 b (pend s); okd := if ok then b :: okd s else okd s; cop := cop s; acked := acked s |}
       else None
   | EAck b =>
